@@ -207,7 +207,13 @@ def parse_svg(doc):
 
 _NUM = r"[-+]?[0-9]*\.?[0-9]+(?:[eE][-+]?[0-9]+)?"
 _SHIFT = re.compile(r"^\\begin\{scope\}\[shift=\{\(\s*(%s)\s*,\s*(%s)\s*\)\}\]$" % (_NUM, _NUM))
-_DEFCOLOR = re.compile(r"^\\definecolor\{(dotColor|labelBgColor|labelTextColor|linkColor|borderColor)([A-Za-z]*)\}\{HTML\}\{([0-9A-Fa-f]{6})\}$")
+_DEFCOLOR = re.compile(r"^\\definecolor\{(dotColor|labelBgColor|labelTextColor|linkColor|borderColor)([A-Za-z]*)\}\{HTML\}\{([^{}]*)\}$")
+_HEX6 = re.compile(r"^[0-9A-Fa-f]{6}$")
+
+
+def _html_colour(v):
+    """xcolor's HTML model takes exactly six hex digits; anything else is not a colour (content, not syntax)."""
+    return _hex(v) if _HEX6.match(v) else ("not-an-HTML-colour", v)
 _DEFTEXT = re.compile(r"^\\def\\text([A-Za-z]*)\{(.*)\}$", re.S)
 _AXIS = re.compile(r"^\\draw\[[^\]]*\] \(0, 0\) -- \((%s), (%s)\);$" % (_NUM, _NUM))
 _CURVE = re.compile(r"^\\draw\[color=linkColor([A-Za-z]*), [^\]]*\] \((%s), (%s)\) \.\. controls\n\((%s), (%s)\) and \((%s), (%s)\) \.\. \((%s), (%s)\);$" % ((_NUM,) * 8))
@@ -243,7 +249,7 @@ def parse_tikz_strict(doc):
             key = (m.group(1), m.group(2))
             if key in colours:
                 raise Unparseable("colour macro %s%s defined twice" % key)
-            colours[key] = _hex(m.group(3))
+            colours[key] = _html_colour(m.group(3))
         elif ln.startswith("\\def\\text"):
             # label text may contain newlines: glue until braces balance
             buf = ln
@@ -417,9 +423,8 @@ def parse_tikz_strict(doc):
         if txt != "":
             if txt != "\\text" + nm:
                 raise Unparseable("label text %r is not its own macro" % txt)
-            if nm not in texts:
-                raise Unparseable("text macro %s undefined" % nm)
-            text = texts[nm]
+            # a label that uses a text macro the document never defines shows no such text: content, not syntax
+            text = texts.get(nm, "<undefined macro \\text%s>" % nm)
         P.boxes.append({"origin": (float(ox), float(oy)), "raw_origin": (ox, oy), "w": float(w), "h": float(h), "raw_size": (w, h),
                         "fill": colours[("labelBgColor", nm)], "border": border, "text": text,
                         "text_colour": colours[("labelTextColor", nm)] if text is not None else None, "name": nm})
@@ -511,7 +516,7 @@ def parse_tikz(doc):
             key = (m.group(1), m.group(2))
             if key in colours:
                 raise Unparseable("colour macro %s%s defined twice" % key)
-            colours[key] = _hex(m.group(3))
+            colours[key] = _html_colour(m.group(3))
         elif ln.startswith("\\def\\text"):
             buf = ln
             while buf.count("{") != buf.count("}") and i + 1 < n and lines[i + 1].strip() != "\\begin{document}":
@@ -668,9 +673,8 @@ def parse_tikz(doc):
                     if txt != "":
                         if txt != "\\text" + nm:
                             raise Unparseable("label text %r is not its own macro" % txt)
-                        if nm not in texts:
-                            raise Unparseable("text macro %s undefined" % nm)
-                        text = texts[nm]
+                        # a label that uses a text macro the document never defines shows no such text: content, not syntax
+                        text = texts.get(nm, "<undefined macro \\text%s>" % nm)
                     P.boxes.append({"origin": (float(ox), float(oy)), "raw_origin": (ox, oy), "w": float(w), "h": float(h), "raw_size": (w, h),
                                     "fill": colours[("labelBgColor", nm)], "border": border, "text": text,
                                     "text_colour": colours[("labelTextColor", nm)] if text is not None else None, "name": nm})
